@@ -269,6 +269,397 @@ def getDimensionTc (sys : List Comp) (factorsAtTc : List (Option Rat)) (fuel i :
 and the block's max area are taken.  The derived component's own temperature does not enter. -/
 def derivedArea (maxArea : Rat) (sibAreas : List Rat) : Rat := maxArea - sibAreas.foldr (· + ·) 0
 
+/-! ## the component as a state machine WITH its caches
+(`p.volume`, `parent.derivedMustUpdate`; `Component.setProperties`, `setTemperature`, `setDimension`,
+`clearCache`, `clearLinkedCache`, `getVolume`, `computeVolume`, `getMass`, `getArea`, `getDimension`,
+`UnshapedComponent.getComponentArea`).  Nothing but the fields below is state: in particular the expansion class
+of the material is looked up in `mat` at every call (`isinstance(self.material, (Fluid, Custom))`). -/
+
+/-- what `self.material` contributes -/
+structure Mat (T : Type) where
+  /-- expansion class: `.fluid` for `Fluid` and `Custom` (no thermal expansion) -/
+  kind : Kind
+  /-- `isinstance(material, Fluid)`: `getThermalExpansionDensityReduction` is `rho1/rho0` instead of `1/(1+dLL)^2` -/
+  liquid : Bool
+  pct : T → Rat
+  rho : T → Rat
+
+/-- what does not belong to the component: the `_TOLERANCE` test, constants, the parent block -/
+structure Env (T : Type) where
+  same : T → T → Bool
+  pi : Rat
+  sqrt3 : Rat
+  sqrtF : Rat → Rat
+  /-- `self.parent.getHeight()`; `none` = the component has no parent -/
+  height : Option Rat
+  /-- `self.parent.getSymmetryFactor()` (1 without a parent) -/
+  sym : Rat
+  /-- `A_i / (N_A 1e-24)` for each entry of the number-density vector (`densityTools.calculateMassDensity`) -/
+  w : List Rat
+
+structure CState (T : Type) where
+  mat : Mat T
+  /-- `inputTemperatureInC` -/
+  tin : T
+  /-- `temperatureInC` -/
+  temp : T
+  nd : List Rat
+  /-- `none` = `UnshapedComponent` (area-defined, `THERMAL_EXPANSION_DIMS` empty, cold area stored under "area") -/
+  shape : Option Shape
+  /-- the stored (cold) `p[dim]` values -/
+  cold : List (String × Rat)
+  /-- `p.volume` (`none` = must be recomputed) -/
+  vol : Option Rat
+  /-- `parent.derivedMustUpdate` -/
+  stale : Bool
+
+def coldOf (l : List (String × Rat)) (k : String) : Option Rat := (l.find? (fun p => p.1 = k)).map (·.2)
+def coldFun (l : List (String × Rat)) (k : String) : Rat := (coldOf l k).getD 0
+
+def expDimsOf : Option Shape → List String
+  | none => []
+  | some sh => sh.expDims
+
+/-- `sum(N_i * A_i) / (N_A 1e-24)` -/
+def massDens (nd w : List Rat) : Rat := ((nd.zip w).map (fun p => p.1 * p.2)).foldr (· + ·) 0
+
+section Machine
+variable {T : Type}
+
+/-- `getThermalExpansionFactor(Tc)` with `T0 = inputTemperatureInC` -/
+def CState.factorAt (e : Env T) (s : CState T) (Tc : T) : Option Rat :=
+  thermalExpansionFactor s.mat.kind s.mat.pct Tc s.tin (e.same Tc s.tin)
+
+/-- `getDimension(key, Tc, cold)` of an unlinked dimension -/
+def CState.dimAt (e : Env T) (s : CState T) (key : String) (Tc : T) (cold : Bool) : Option Rat :=
+  match coldOf s.cold key with
+  | none => none
+  | some q =>
+    if q = 0 ∨ cold = true ∨ ¬ (expDimsOf s.shape).contains key then some q
+    else (s.factorAt e Tc).map (fun f => f * q)
+
+/-- `getArea(cold, Tc)`: the shape's `getComponentArea` on the dimensions read through `getDimension`;
+`UnshapedComponent`: `factor ** 2 * coldArea`.  The helix root is `sqrtF` of the cold radicand times the factor. -/
+def CState.areaAt (e : Env T) (s : CState T) (Tc : T) (cold : Bool) : Option Rat :=
+  match s.shape with
+  | none =>
+    match coldOf s.cold "area" with
+    | none => none
+    | some a => if cold then some a else (s.factorAt e Tc).map (fun f => areaUnshaped f a)
+  | some sh =>
+    let d := coldFun s.cold
+    let root := e.sqrtF (helixRadicand e.pi (d "axialPitch") (d "helixDiameter"))
+    if cold then some (sh.area e.pi e.sqrt3 root d)
+    else (s.factorAt e Tc).map (fun f => sh.area e.pi e.sqrt3 (f * root) (scaleDims sh.expDims f d))
+
+/-- `clearLinkedCache()` of a component without dependents: `clearCache()` (`p.volume = None`, and with a parent
+`parent.derivedMustUpdate = True`) -/
+def CState.clearLinkedCache (e : Env T) (s : CState T) : CState T :=
+  { s with vol := none, stale := s.stale || e.height.isSome }
+
+/-- `getVolume()`: the cached `p.volume`, else `computeVolume()` = `getArea() * parent.getHeight()`, stored -/
+def CState.getVolume (e : Env T) (s : CState T) : CState T × Option Rat :=
+  match s.vol with
+  | some v => (s, some v)
+  | none =>
+    match e.height, s.areaAt e s.temp false with
+    | some h, some a => ({ s with vol := some (a * h) }, some (a * h))
+    | _, _ => (s, none)
+
+inductive Op (T : Type) where
+  /-- `setTemperature(t)` -/
+  | setTemp (t : T)
+  /-- `setProperties(material)` -/
+  | setMat (m : Mat T)
+  /-- `setDimension(key, v, cold=cold)` -/
+  | setDim (key : String) (v : Rat) (cold : Bool)
+  /-- `p.numberDensities = nd` (what `applyMaterialMassFracsToNumberDensities` ends with; no cache is touched) -/
+  | setND (nd : List Rat)
+  | qFactor
+  | qDim (key : String) (cold : Bool)
+  | qDimTc (key : String) (Tc : T)
+  | qArea (cold : Bool)
+  | qAreaTc (Tc : T)
+  | qVolume
+  | qMass
+  | qND
+
+def Op.isQuery : Op T → Bool
+  | .setTemp _ => false
+  | .setMat _ => false
+  | .setDim _ _ _ => false
+  | .setND _ => false
+  | _ => true
+
+/-- one public call on the component: new state and what the call returns (`none` = it raises) -/
+def step (e : Env T) (s : CState T) : Op T → CState T × Option (List Rat)
+  | .setTemp t =>
+    let f := if s.mat.liquid then fluidDensReduction s.mat.rho s.temp t else densReduction s.mat.pct s.temp t
+    (({ s with temp := t, nd := s.nd.map (fun n => n * f) } : CState T).clearLinkedCache e, some [])
+  | .setMat m => (({ s with mat := m } : CState T).clearLinkedCache e, some [])
+  | .setDim key v cold =>
+    let stored : Option Rat :=
+      if cold then some v
+      else if (expDimsOf s.shape).contains key then (s.factorAt e s.temp).map (fun f => v / f) else some v
+    match stored with
+    | none => (s, none)
+    | some q =>
+      (({ s with cold := s.cold.map (fun p => if p.1 = key then (p.1, q) else p) } : CState T).clearLinkedCache e,
+        some [])
+  | .setND nd => ({ s with nd := nd }, some [])
+  | .qFactor => (s, (s.factorAt e s.temp).map (fun x => [x]))
+  | .qDim key cold => (s, (s.dimAt e key s.temp cold).map (fun x => [x]))
+  | .qDimTc key Tc => (s, (s.dimAt e key Tc false).map (fun x => [x]))
+  | .qArea cold => (s, (s.areaAt e s.temp cold).map (fun x => [x]))
+  | .qAreaTc Tc => (s, (s.areaAt e Tc false).map (fun x => [x]))
+  | .qVolume => ((s.getVolume e).1, (s.getVolume e).2.map (fun x => [x]))
+  | .qMass => ((s.getVolume e).1, (s.getVolume e).2.map (fun v => [massDens s.nd e.w * (v / e.sym)]))
+  | .qND => (s, some s.nd)
+
+/-- a whole history of public calls: end state and everything the calls returned -/
+def run (e : Env T) : CState T → List (Op T) → CState T × List (Option (List Rat))
+  | s, [] => (s, [])
+  | s, op :: rest => ((run e (step e s op).1 rest).1, (step e s op).2 :: (run e (step e s op).1 rest).2)
+
+/-- the component with every cache dropped -/
+def CState.forget (s : CState T) : CState T := { s with vol := none, stale := false }
+
+/-- the same history on a machine that never keeps a cache -/
+def runPure (e : Env T) : CState T → List (Op T) → CState T × List (Option (List Rat))
+  | s, [] => (s.forget, [])
+  | s, op :: rest =>
+    ((runPure e (step e s.forget op).1.forget rest).1,
+     (step e s.forget op).2 :: (runPure e (step e s.forget op).1.forget rest).2)
+
+/-- the temperatures a history sets, in order -/
+def Op.temps : List (Op T) → List T
+  | [] => []
+  | .setTemp t :: rest => t :: Op.temps rest
+  | _ :: rest => Op.temps rest
+
+end Machine
+
+/-! ## a block of linked components as a state machine with caches
+(`Component.clearLinkedCache` / `getLinkedComponents` / `clearCache`, `getVolume`, `computeVolume`,
+`DerivedShape.getVolume` / `getComponentArea` / `_deriveVolumeAndArea`, `Block.derivedMustUpdate`).
+`clearLinkedCache` sweeps the dependents transitively (the code since fix b30c1b1: `e.transitive = true`); the sweep
+of the DIRECT dependents only (the code before that fix: `e.transitive = false`) is kept so that the repaired defect
+stays stated exactly (`Props/C03.lean` `coded_sweep_misses_chain`). -/
+
+structure BComp (T : Type) where
+  mat : Mat T
+  tin : T
+  temp : T
+  nd : List Rat
+  /-- mass-density weights of the entries of `nd` -/
+  w : List Rat
+  /-- `none` = `UnshapedComponent` (cold area stored as the value dimension "area") -/
+  shape : Option Shape
+  dims : List (String × Dim)
+  /-- `p.volume` -/
+  vol : Option Rat
+
+structure BEnv (T : Type) where
+  same : T → T → Bool
+  pi : Rat
+  sqrt3 : Rat
+  sqrtF : Rat → Rat
+  /-- `parent.getHeight()` (non-zero) -/
+  h : Rat
+  /-- `parent.getMaxArea()` (the pitch-defining component is not part of the history) -/
+  maxArea : Rat
+  sym : Rat
+  /-- `true`: `clearLinkedCache` as coded since fix b30c1b1 (transitive sweep); `false`: before it (direct dependents) -/
+  transitive : Bool
+
+structure BState (T : Type) where
+  /-- the block's children other than the derived shape, in order -/
+  comps : List (BComp T)
+  /-- `parent.derivedMustUpdate` -/
+  stale : Bool
+  /-- the derived shape's `p.area` and `p.volume` -/
+  dArea : Option Rat
+  dVol : Option Rat
+
+def valuation (names : List String) (vals : List Rat) : String → Rat :=
+  fun k => match (names.zip vals).find? (fun p => p.1 = k) with
+    | some p => p.2
+    | none => 0
+
+section BlockMachine
+variable {T : Type}
+
+/-- the component as `getDimension` sees it: expansion class, current factor, expanding dimensions, stored dims -/
+def BComp.toComp (e : BEnv T) (c : BComp T) : Comp :=
+  { kind := c.mat.kind,
+    factor := thermalExpansionFactor c.mat.kind c.mat.pct c.temp c.tin (e.same c.temp c.tin),
+    expDims := expDimsOf c.shape, dims := c.dims }
+
+def sysOf (e : BEnv T) (comps : List (BComp T)) : List Comp := comps.map (fun c => c.toComp e)
+
+def BState.sys (e : BEnv T) (b : BState T) : List Comp := sysOf e b.comps
+
+/-- `comps[i].getDimension(key, cold=cold)`, links resolved recursively -/
+def BState.dim (e : BEnv T) (b : BState T) (i : Nat) (key : String) (cold : Bool) : Option Rat :=
+  getDimension (b.sys e) ((b.sys e).length + 1) i key cold
+
+/-- `getArea()` of component `i` from what `getDimension` sees (`sys`) and the shape classes -/
+def areaOf (e : BEnv T) (sys : List Comp) (shapes : List (Option Shape)) (i : Nat) : Option Rat :=
+  match sys[i]?, shapes[i]? with
+  | some c, some none =>
+    match c.dim? "area", c.factor with
+    | some (.val a), some f => some (areaUnshaped f a)
+    | _, _ => none
+  | some _, some (some sh) =>
+    match (sh.dims.map (fun k => getDimension sys (sys.length + 1) i k false)).mapM id with
+    | none => none
+    | some vals =>
+      let d := valuation sh.dims vals
+      some (sh.area e.pi e.sqrt3 (e.sqrtF (helixRadicand e.pi (d "axialPitch") (d "helixDiameter"))) d)
+  | _, _ => none
+
+/-- `comps[i].getArea()`: the shape's `getComponentArea` over `getDimension` of each of its dimensions
+(`UnshapedComponent`: factor² × cold area) -/
+def BState.area (e : BEnv T) (b : BState T) (i : Nat) : Option Rat :=
+  areaOf e (b.sys e) (b.comps.map (fun c => c.shape)) i
+
+/-- `comps[i].getVolume()` -/
+def BState.getVolume (e : BEnv T) (b : BState T) (i : Nat) : BState T × Option Rat :=
+  match b.comps[i]? with
+  | none => (b, none)
+  | some c =>
+    match c.vol with
+    | some v => (b, some v)
+    | none =>
+      match b.area e i with
+      | none => (b, none)
+      | some a => ({ b with comps := b.comps.set i { c with vol := some (a * e.h) } }, some (a * e.h))
+
+/-- does resolving a dimension of component `j` pass through component `i` within `F` levels of links?
+`reaches sys 2 j i` is `j = i` or "a dimension of `j` links directly to `i`" (`getLinkedComponents`) -/
+def reaches (sys : List Comp) : Nat → Nat → Nat → Bool
+  | 0, _, _ => false
+  | F + 1, j, i =>
+    j == i || (match sys[j]? with
+      | none => false
+      | some c => c.dims.any (fun p => match p.2 with
+          | .link k _ => reaches sys F k i
+          | .val _ => false))
+
+/-- `comps[i].clearLinkedCache()`: own `p.volume = None`, `parent.derivedMustUpdate = True`, and `p.volume = None`
+for every component whose dimensions resolve through component `i` at any depth (`e.transitive`: the breadth-first
+sweep over `getLinkedComponents` of the code since fix b30c1b1), or — `e.transitive = false`, the code before that
+fix — only for the components with a dimension linked DIRECTLY to component `i` (depth 2) -/
+def BState.clearLinkedCache (e : BEnv T) (b : BState T) (i : Nat) : BState T :=
+  { b with stale := true,
+           comps := b.comps.mapIdx (fun j c =>
+             if reaches (b.sys e) (if e.transitive then b.comps.length + 1 else 2) j i = true
+             then { c with vol := none } else c) }
+
+def BState.modify (b : BState T) (i : Nat) (f : BComp T → BComp T) : BState T :=
+  match b.comps[i]? with
+  | none => b
+  | some c => { b with comps := b.comps.set i (f c) }
+
+/-- `sum(sibling.getVolume())` over the non-derived children, in order (fills their caches) -/
+def BState.sibVolumes (e : BEnv T) (b : BState T) : BState T × Option Rat :=
+  (List.range b.comps.length).foldl (fun (acc : BState T × Option Rat) i =>
+      ((acc.1.getVolume e i).1,
+       match acc.2, (acc.1.getVolume e i).2 with
+       | some s, some v => some (s + v)
+       | _, _ => none)) (b, some 0)
+
+/-- `DerivedShape._deriveVolumeAndArea()`: `p.area = remainingVolume / height`; returns the remaining volume
+(`none` = raises: a sibling raises or the remainder is negative) -/
+def BState.deriveVolumeAndArea (e : BEnv T) (b : BState T) : BState T × Option Rat :=
+  match (b.sibVolumes e).2 with
+  | none => ((b.sibVolumes e).1, none)
+  | some sv =>
+    if e.maxArea * e.h - sv < 0 then ((b.sibVolumes e).1, none)
+    else ({ (b.sibVolumes e).1 with dArea := some ((e.maxArea * e.h - sv) / e.h) }, some (e.maxArea * e.h - sv))
+
+/-- `DerivedShape.getComponentArea()`: recomputed while `derivedMustUpdate` (which it does not reset), else `p.area` -/
+def BState.derivedArea (e : BEnv T) (b : BState T) : BState T × Option Rat :=
+  if b.stale then ((b.deriveVolumeAndArea e).1, (b.deriveVolumeAndArea e).2.bind (fun _ => (b.deriveVolumeAndArea e).1.dArea))
+  else (b, b.dArea)
+
+/-- `DerivedShape.getVolume()`: with `derivedMustUpdate` drop `p.volume` and reset the flag; then the cached volume,
+else `_deriveVolumeAndArea()` stored -/
+def BState.derivedVolume (e : BEnv T) (b : BState T) : BState T × Option Rat :=
+  let b1 : BState T := if b.stale then { b with dVol := none, stale := false } else b
+  match b1.dVol with
+  | some v => (b1, some v)
+  | none =>
+    match (b1.deriveVolumeAndArea e).2 with
+    | none => ((b1.deriveVolumeAndArea e).1, none)
+    | some rem => ({ (b1.deriveVolumeAndArea e).1 with dVol := some rem }, some rem)
+
+inductive BOp (T : Type) where
+  | setTemp (i : Nat) (t : T)
+  | setMat (i : Nat) (m : Mat T)
+  | setDim (i : Nat) (key : String) (v : Rat) (cold : Bool)
+  /-- `comps[i].setDimension(key, v, retainLink=True, cold=cold)` -/
+  | setDimRetain (i : Nat) (key : String) (v : Rat) (cold : Bool)
+  | qDim (i : Nat) (key : String) (cold : Bool)
+  | qArea (i : Nat)
+  | qVolume (i : Nat)
+  | qMass (i : Nat)
+  | qDerivedArea
+  | qDerivedVolume
+
+def bstep (e : BEnv T) (b : BState T) : BOp T → BState T × Option (List Rat)
+  | .setTemp i t =>
+    match b.comps[i]? with
+    | none => (b, none)
+    | some c =>
+      let f := if c.mat.liquid then fluidDensReduction c.mat.rho c.temp t else densReduction c.mat.pct c.temp t
+      ((b.modify i (fun c => { c with temp := t, nd := c.nd.map (fun n => n * f) })).clearLinkedCache e i, some [])
+  | .setMat i m =>
+    match b.comps[i]? with
+    | none => (b, none)
+    | some _ => ((b.modify i (fun c => { c with mat := m })).clearLinkedCache e i, some [])
+  | .setDim i key v cold =>
+    match b.comps[i]? with
+    | none => (b, none)
+    | some c =>
+      match setDimension (c.toComp e) key v cold with
+      | none => (b, none)
+      | some c' => ((b.modify i (fun c => { c with dims := c'.dims })).clearLinkedCache e i, some [])
+  | .setDimRetain i key v cold =>
+    -- `if retainLink and self.dimensionIsLinked(key): linkedComp.setDimension(linkedDimName, val, cold=cold)`
+    -- (which ends with the TARGET's clearLinkedCache) `else: ... self.p[key] = val`; then `self.clearLinkedCache()`
+    match b.comps[i]? with
+    | none => (b, none)
+    | some c =>
+      match (c.toComp e).dim? key with
+      | some (.link j k) =>
+        match b.comps[j]? with
+        | none => (b, none)
+        | some t =>
+          match setDimension (t.toComp e) k v cold with
+          | none => (b, none)
+          | some t' =>
+            (((b.modify j (fun c => { c with dims := t'.dims })).clearLinkedCache e j).clearLinkedCache e i, some [])
+      | _ =>
+        match setDimension (c.toComp e) key v cold with
+        | none => (b, none)
+        | some c' => ((b.modify i (fun c => { c with dims := c'.dims })).clearLinkedCache e i, some [])
+  | .qDim i key cold => (b, (b.dim e i key cold).map (fun x => [x]))
+  | .qArea i => (b, (b.area e i).map (fun x => [x]))
+  | .qVolume i => ((b.getVolume e i).1, (b.getVolume e i).2.map (fun x => [x]))
+  | .qMass i =>
+    match b.comps[i]? with
+    | none => (b, none)
+    | some c => ((b.getVolume e i).1, (b.getVolume e i).2.map (fun v => [massDens c.nd c.w * (v / e.sym)]))
+  | .qDerivedArea => ((b.derivedArea e).1, (b.derivedArea e).2.map (fun x => [x]))
+  | .qDerivedVolume => ((b.derivedVolume e).1, (b.derivedVolume e).2.map (fun x => [x]))
+
+def brun (e : BEnv T) : BState T → List (BOp T) → BState T × List (Option (List Rat))
+  | b, [] => (b, [])
+  | b, op :: rest => ((brun e (bstep e b op).1 rest).1, (bstep e b op).2 :: (brun e (bstep e b op).1 rest).2)
+
+end BlockMachine
+
 /-! ## rational square root for the driver (Helix); precision 10^-30 relative to the scale of the input -/
 
 def sqrtApprox (q : Rat) : Rat :=
